@@ -21,6 +21,8 @@ void run_history(Run &R, int maxops) {
   bool solo = c.t.chance(24); int ng = solo ? 0 : 1 + (int)c.t.below(4); const int first = solo ? 0 : 1;
   std::vector<Grp> g(ng + 1);           // g[0] = the "all" entry (sub-index 1) with a 1-byte area of its own
   uint32_t off = c.t.below(8);
+  // an eighth of the node ids: the groups lie around and beyond the 64 KiB mark of the non-volatile memory (a second bank) - decided from the node id, no tape choice
+  const uint32_t nvbase = s.nodeid % 8 == 3 ? 0xFFE0u + (s.nodeid / 8) : 0; off += nvbase; if (nvbase) c.cls("nvm-offsets-around-and-beyond-64KiB");
   SplitMix iv(c.t.u16());
   for (int i = 1; i <= ng; i++) {
     g[i].size = 1 + (int)c.t.below(c.t.coin() ? 8 : 64); { static const uint32_t FV[4] = {CO_PARA____, CO_PARA___E, CO_PARA__AE, CO_PARA__A_}; g[i].flags = FV[c.t.below(4)]; g[i].en = (g[i].flags & CO_PARA___E) != 0; } g[i].type = 1 + (int)c.t.below(2); g[i].off = off; off += g[i].size + c.t.below(3);
@@ -48,7 +50,7 @@ void run_history(Run &R, int maxops) {
     s.add(CO_KEY(0x1010, 0, CO_OBJ_D___R_), CO_TPARA_STORE, (CO_DATA)(ng + 1));
     s.add(CO_KEY(0x1011, 0, CO_OBJ_D___R_), CO_TPARA_RESTORE, (CO_DATA)(ng + 1));
   }
-  s.nvm.assign(off + 8, 0); for (auto &b : s.nvm) b = (uint8_t)iv.next();
+  s.nvm.assign(off + 8, 0); for (size_t k = nvbase; k < s.nvm.size(); k++) s.nvm[k] = (uint8_t)iv.next(); if (nvbase) for (size_t k = 0; k < 256; k++) s.nvm[k] = (uint8_t)iv.next();   // (offsets modulo 65536 land here)
   std::vector<uint8_t> mnv = s.nvm;                       // model of the NVM image
   std::vector<int> defcalls(ng + 1, 0);
   s.para_default = [&](CO_PARA *p) -> int16_t { for (int i = 0; i <= ng; i++) if (g[i].pg == p) { defcalls[i]++; if (g[i].def) memcpy(g[i].ram, g[i].def, g[i].size); } return 0; };
@@ -179,7 +181,7 @@ void case_faultenum(Ctx &c) {
 
 Registrar reg(Prop{
     "C17",
-    "Cases: 1..4 parameter groups - or a device with sub-index 1 only, which then addresses its single group; highest sub-index of 1010h/1011h a direct constant or (a quarter of the node ids) a referenced variable at a chosen position of a 256-byte line - (size 1..64, non-overlapping NVM offsets with gaps, reset type node/communication, enable flags from {disabled, on command, autonomously, both}: store-on-command is bit 0) behind 1010h/1011h sub-indices 2..n+1 plus the 'all' sub-index 1, random RAM and NVM images; histories of RAM modifications, SDO writes to 1010h/1011h with right and wrong signatures (the other signature, random values, and the first 1..3 bytes of the right one announced as such with the rest of it in the unused bytes of the frame), restarts (RAM lost, NVM kept), NMT reset node/communication, reads, and the same store / restore requests made by the application through COParaStore / COParaRestore for one group. "
+    "Cases: 1..4 parameter groups - or a device with sub-index 1 only, which then addresses its single group; highest sub-index of 1010h/1011h a direct constant or (a quarter of the node ids) a referenced variable at a chosen position of a 256-byte line - (size 1..64, non-overlapping NVM offsets with gaps - for an eighth of the node ids around and beyond the 64 KiB mark -, reset type node/communication, enable flags from {disabled, on command, autonomously, both}: store-on-command is bit 0) behind 1010h/1011h sub-indices 2..n+1 plus the 'all' sub-index 1, random RAM and NVM images; histories of RAM modifications, SDO writes to 1010h/1011h with right and wrong signatures (the other signature, random values, and the first 1..3 bytes of the right one announced as such with the rest of it in the unused bytes of the frame), restarts (RAM lost, NVM kept), NMT reset node/communication, reads, and the same store / restore requests made by the application through COParaStore / COParaRestore for one group. "
     "Mode fault-enum: each generated history of <= 12 (24) ops is first run without fault to count its NVM driver calls N and is then re-run once for EVERY fault position k = 1..N (k-th NVM call returns a short count); mode random: longer histories with a random fault position. "
     "Oracle: reference model of RAM, NVM, verdicts and node error (set after a step with a short count, none after a fault-free restart or reset): 'save' writes exactly the addressed enabled groups (byte-exact NVM compare), 'load' calls COParaDefault for exactly those, other values refused with RAM and NVM byte-identical, after restart/reset the groups of the right type equal the last successfully stored image, a short count yields an SDO abort (store) or a node error (load); in the fault step itself only the error signal is required. "
     "Non-trivial: a successful store followed by a restart/reset, or a fault position that was hit. evaluations counts generated histories; every fault-enum history additionally executes N faulted replays (class fault-position-executed). Distinct = distinct decoded choice sequence.",
